@@ -140,6 +140,11 @@ void Curve::append_quad(const Vec2 p0, const Vec2 p1, const Vec2 p2) {
 
 void Curve::append_bezier(const Array<Vec2> ctrl) {
     const uint64_t count = ctrl.count;
+    if (count < 3) {
+        // Degree 1: straight segment (there is no 2nd derivative to evaluate)
+        if (count == 2) append(ctrl[1]);
+        return;
+    }
     // Sampling based on curvature
     // dp : 1st derivative
     Array<Vec2> dp = {};
@@ -402,7 +407,7 @@ void Curve::bezier(const Array<Vec2> points, bool relative) {
     }
     ctrl.count = points.count + 1;
     append_bezier(ctrl);
-    last_ctrl = points[points.count - 2];
+    last_ctrl = ctrl[ctrl.count - 2];
     ctrl.clear();
 }
 
